@@ -16,6 +16,23 @@ theorem generated_fail_exits :
      Scipipe.Task_Failf.any (·.isCall "Fail") && Scipipe.BaseProcess_Fail.any (·.isCall "Failf") &&
      Scipipe.BaseProcess_Failf.any (·.isCall "Fail") && Scipipe.CheckWithMsg.any (·.isCall "Fail")) = true := by decide
 
+/-- every other `Fail` / `Failf` wrapper of the library (workflow, IPs, the four kinds of ports, `Check`) ends in
+`Fail` as well: no failure path of the library returns to its caller -/
+theorem generated_all_fail_wrappers_exit :
+    (Scipipe.Workflow_Fail.any (·.isCall "Failf") && Scipipe.Workflow_Failf.any (·.isCall "Fail") &&
+     Scipipe.FileIP_Fail.any (·.isCall "Failf") && Scipipe.FileIP_Failf.any (·.isCall "Fail") &&
+     Scipipe.InPort_Fail.any (·.isCall "Failf") && Scipipe.InPort_Failf.any (·.isCall "Fail") &&
+     Scipipe.OutPort_Fail.any (·.isCall "Failf") && Scipipe.OutPort_Failf.any (·.isCall "Fail") &&
+     Scipipe.InParamPort_Fail.any (·.isCall "Failf") && Scipipe.InParamPort_Failf.any (·.isCall "Fail") &&
+     Scipipe.OutParamPort_Fail.any (·.isCall "Failf") && Scipipe.OutParamPort_Failf.any (·.isCall "Fail") &&
+     Scipipe.Check.any (·.isCall "Fail") &&
+     -- none of them has a branch or an early return in front of the call
+     ([Scipipe.Workflow_Fail, Scipipe.Workflow_Failf, Scipipe.FileIP_Fail, Scipipe.FileIP_Failf, Scipipe.InPort_Fail,
+       Scipipe.InPort_Failf, Scipipe.OutPort_Fail, Scipipe.OutPort_Failf, Scipipe.InParamPort_Fail, Scipipe.InParamPort_Failf,
+       Scipipe.OutParamPort_Fail, Scipipe.OutParamPort_Failf, Scipipe.Fail, Scipipe.Failf, Scipipe.Task_Fail, Scipipe.Task_Failf,
+       Scipipe.BaseProcess_Fail, Scipipe.BaseProcess_Failf].all fun l =>
+         count (fun a => a.kind == .ifB_ || a.kind == .ret_ || a.kind == .go_ || a.kind == .goB_ || a.kind == .defer_) l == 0)) = true := by decide
+
 /-- a missing temp output is fatal; a failing `finalizePaths` is fatal; an invalid out path is fatal -/
 theorem generated_error_branches_fail :
     (before Scipipe.Task_ensureAllOutputsExist (·.isCall "IsNotExist") (·.isCall "Failf") &&
@@ -41,6 +58,7 @@ theorem generated_all_ops_known_c09 : taskSemKnown = true := by decide
 
 
 
+
 -- BEGIN PINS (written by bin/mkpins; do not edit by hand)
 /-- the Go functions this property's model and obligations were written against have exactly the
 pinned skeletons (SHA-256 prefix of the atom list) -/
@@ -49,11 +67,22 @@ theorem pinned_skeletons_c09 :
     [("Scipipe.#decls", "08e57e98702ecd70"),
      ("Scipipe.BaseProcess_Fail", "06794419eac40800"),
      ("Scipipe.BaseProcess_Failf", "536c85ecebfbb5bd"),
+     ("Scipipe.Check", "8c079622ba7281b9"),
      ("Scipipe.CheckWithMsg", "9c35c41ab8e8dc71"),
      ("Scipipe.Fail", "6dc9afa8d61b0d24"),
      ("Scipipe.Failf", "4eb8bd4d81ed1ce9"),
+     ("Scipipe.FileIP_Fail", "3a5659c15d57c048"),
+     ("Scipipe.FileIP_Failf", "fe61f00c155d968e"),
      ("Scipipe.FinalizePaths", "291fc0cefa37cea9"),
+     ("Scipipe.InParamPort_Fail", "3d176eec0bfabf4c"),
+     ("Scipipe.InParamPort_Failf", "f66582574c708db5"),
+     ("Scipipe.InPort_Fail", "ea20baf8a3372fdd"),
+     ("Scipipe.InPort_Failf", "f66582574c708db5"),
      ("Scipipe.NewTask", "95298f03c320cb96"),
+     ("Scipipe.OutParamPort_Fail", "04e21bf277fda47a"),
+     ("Scipipe.OutParamPort_Failf", "f66582574c708db5"),
+     ("Scipipe.OutPort_Fail", "9599b0eba9214966"),
+     ("Scipipe.OutPort_Failf", "f66582574c708db5"),
      ("Scipipe.Task_Execute", "40fd1fec0c69deb2"),
      ("Scipipe.Task_Fail", "7efd50bffbc769dd"),
      ("Scipipe.Task_Failf", "9750abd3cdce8d29"),
@@ -61,7 +90,9 @@ theorem pinned_skeletons_c09 :
      ("Scipipe.Task_ensureAllOutputsExist", "02a49c3c493368f3"),
      ("Scipipe.Task_executeCommand", "98e77d849c0638cb"),
      ("Scipipe.Task_finalizePaths", "9cd0530d4e86fa92"),
-     ("Scipipe.Task_formatCommand", "ccbe98735ce5c7d6")] = true := by decide
+     ("Scipipe.Task_formatCommand", "ccbe98735ce5c7d6"),
+     ("Scipipe.Workflow_Fail", "d0b195ce154de1ab"),
+     ("Scipipe.Workflow_Failf", "3ec88e62b4857c47")] = true := by decide
 -- END PINS
 
 end SciVerif.Tie
@@ -71,6 +102,7 @@ end SciVerif.Tie
 #print axioms SciVerif.Tie.generated_rename_src_temp
 #print axioms SciVerif.Tie.generated_wf_c01_for_c09
 #print axioms SciVerif.Tie.generated_fail_exits
+#print axioms SciVerif.Tie.generated_all_fail_wrappers_exit
 #print axioms SciVerif.Tie.generated_error_branches_fail
 #print axioms SciVerif.Tie.generated_missing_value_fails
 #print axioms SciVerif.Tie.c09_on_source
